@@ -643,6 +643,14 @@ def run(report, p):
                 nm = norm(n.func)
                 ok = nm in allowed or nm.endswith(".as_posix")
                 r3.check(ok, f, n, f"{f.name} applies `{nm}` to the path: the value read back is no longer the value written (normalisation / case folding / trimming is not a separator conversion)", construct=f"{f.name}: {nm}")
+        # a backslash is an ordinary character of a POSIX file name: the Windows flavour of the path classes (which reads it as a separator) may only be
+        # applied where the host is Windows - on the write side as much as on the read side
+        gconv = cfg_of(f)
+        for n in walk_no_nested(f.node):
+            if isinstance(n, ast.Call) and norm(n.func).split(".")[-1] in ("PureWindowsPath", "WindowsPath"):
+                deps = [(norm(t.ast).replace('"', "'").replace(" ", ""), l) for t, l in gconv.necessary_branches(gconv.node_for(n)) if t.kind == "test"]
+                on_windows = any((a in ("os.name=='nt'", "os.sep=='\\\\'", "sys.platform=='win32'", "sys.platform.startswith('win')", "platform.system()=='Windows'") and l == "T") or (a in ("os.name!='nt'", "os.name=='posix'", "os.sep=='/'") and l == "F") for a, l in deps)
+                r3.check(on_windows, f, n, f"{f.name} reads the path with the Windows flavour of the path classes on every host: on POSIX a backslash inside a file or folder name is taken for a separator, the recorded path (`a\\b.mov` -> `a/b.mov`) no longer names the file", construct=f"{f.name}: Windows path flavour on every host")
         prm = f.params[0]
         rets = [n for n in walk_no_nested(f.node) if isinstance(n, ast.Return)]
         for rt in rets:
